@@ -31,7 +31,7 @@ def install_stat(devmap):
     def stat(path, *a, **kw):
         st = real(path, *a, **kw)
         try:
-            p = os.path.abspath(os.fspath(path))
+            p = os.path.realpath(os.fspath(path))
         except TypeError:
             return st
         if isinstance(p, bytes):
